@@ -92,12 +92,13 @@ var c07Models = map[string]struct {
 }
 
 type c07Cfg struct {
-	Updates []string `json:"updates"`          // update kinds performed by the updater thread, in order
-	Execs   []string `json:"execs"`            // execution models, one client thread each
-	Inside  string   `json:"inside,omitempty"` // update kind triggered from inside rule "a" of the first execution (no updater thread)
-	After   bool     `json:"after,omitempty"`  // the executions start only after the updater has finished
-	Serial  bool     `json:"serial,omitempty"` // one client thread issues the executions one after the other (instances are reused)
-	Auto    bool     `json:"auto,omitempty"`   // racy access sites become scheduling points (iterated to a fix-point)
+	Updates  []string `json:"updates"`            // update kinds performed by the updater thread, in order
+	Execs    []string `json:"execs"`              // execution models, one client thread each
+	Inside   string   `json:"inside,omitempty"`   // update kind triggered from inside rule "a" of the first execution (no updater thread)
+	After    bool     `json:"after,omitempty"`    // the executions start only after the updater has finished
+	Updates2 []string `json:"updates2,omitempty"` // a second updater thread running concurrently with the first; the executions start after both have finished
+	Serial   bool     `json:"serial,omitempty"`   // one client thread issues the executions one after the other (instances are reused)
+	Auto     bool     `json:"auto,omitempty"`     // racy access sites become scheduling points (iterated to a fix-point)
 }
 
 type c07Exec struct {
@@ -113,6 +114,8 @@ type c07State struct {
 	execs      []*c07Exec
 	uerr       []error
 	upan       []interface{}
+	uerr2      []error
+	upan2      []interface{}
 	gp         *engine.GenginePool
 	insideDone bool
 	cfg        c07Cfg
@@ -182,7 +185,17 @@ func c07Scenario(cfg c07Cfg) *hx.Scenario {
 				st.log.Ev("xret", int64(j))
 				x.ret = len(st.log.Evs) - 1
 			}
-			if cfg.Inside == "" {
+			if len(cfg.Updates2) > 0 {
+				// two update calls race with each other; executions look at the outcome afterwards
+				vsched.Go(updater)
+				vsched.Go(func() {
+					for _, k := range cfg.Updates2 {
+						e, p := gx.CallGuarded(func() error { return c07ApplyPool(st.gp, k) })
+						st.uerr2, st.upan2 = append(st.uerr2, e), append(st.upan2, p)
+					}
+				})
+				vsched.WaitOthersDone()
+			} else if cfg.Inside == "" {
 				if cfg.After {
 					updater()
 				} else {
@@ -215,6 +228,56 @@ func c07Scenario(cfg c07Cfg) *hx.Scenario {
 			}
 			if ex.Verdict != "" {
 				bad(ex.Verdict, "execution did not complete: "+ex.Verdict+" "+firstLine(ex.Crash))
+				return
+			}
+			if len(cfg.Updates2) > 0 {
+				for i, p := range append(append([]interface{}{}, st.upan...), st.upan2...) {
+					if p != nil {
+						bad("update-panic:concurrent-updates", fmt.Sprintf("update call %d panicked while another update call was running: %v", i, p))
+						return
+					}
+				}
+				for _, e := range append(append([]error{}, st.uerr...), st.uerr2...) {
+					if e != nil {
+						bad("update-error:concurrent-updates", fmt.Sprintf("an update call failed while another update call was running: %v", e))
+						return
+					}
+				}
+				// every serial order of the two updaters' calls that respects each updater's own order
+				finals := map[string]ref.RuleSet{}
+				var rec func(s ref.RuleSet, a, b []string)
+				rec = func(s ref.RuleSet, a, b []string) {
+					if len(a) == 0 && len(b) == 0 {
+						finals[s.String()] = s
+						return
+					}
+					if len(a) > 0 {
+						rec(c07ApplyRef(s, a[0]), a[1:], b)
+					}
+					if len(b) > 0 {
+						rec(c07ApplyRef(s, b[0]), a, b[1:])
+					}
+				}
+				rec(c07Set(c07V1), cfg.Updates, cfg.Updates2)
+				for j, x := range st.execs {
+					m := c07Models[cfg.Execs[j]]
+					if x.pan != nil {
+						bad(cfg.Execs[j]+":panic", fmt.Sprintf("execution %d panicked: %v", j, x.pan))
+						continue
+					}
+					ok := false
+					var wants []string
+					for _, f := range finals {
+						want, wantErr := c07Expect(f, m.model, m.p)
+						wants = append(wants, fmt.Sprint(want))
+						if sameResult(x.res, want) == "" && wantErr == (x.err != nil) {
+							ok = true
+						}
+					}
+					if !ok {
+						bad(cfg.Execs[j]+":lost-update", fmt.Sprintf("execution %d, started after two concurrent update calls had both returned, ran %v: no serial order of those calls installs that (possible: %v)", j, x.res, wants))
+					}
+				}
 				return
 			}
 			// reference snapshots
@@ -319,12 +382,12 @@ func c07Expect(set ref.RuleSet, model string, p gx.PoolCallParams) (map[string]i
 func c07Configs(thorough bool) (cfgs []c07Cfg, bounds []int) {
 	models := []string{"sort", "conc", "mix", "inverse", "nsortmc", "ncmsort", "ncmc", "dag", "selected", "specified"}
 	kinds := []string{"full", "incr", "remove"}
-	b := 2
-	if thorough {
-		b = 3
-	}
 	for _, m := range models {
 		seqModel := m == "sort" || m == "selected" || m == "specified"
+		b := 2
+		if thorough && m == "sort" {
+			b = 3 // three deviations for the sort model; the other paths stay at 2 with more configurations (bound 3 does not finish for all of them)
+		}
 		for _, k := range kinds {
 			// update triggered from inside the first rule of a running execution
 			cfgs = append(cfgs, c07Cfg{Inside: k, Execs: []string{m}})
@@ -354,6 +417,13 @@ func c07Configs(thorough bool) (cfgs []c07Cfg, bounds []int) {
 				bounds = append(bounds, b)
 			}
 		}
+		// two update calls racing with each other, executions on both instances afterwards
+		if m == "sort" {
+			for _, pr := range [][2]string{{"remove", "incr"}, {"incr", "remove"}, {"full", "remove"}, {"full", "incr"}, {"incr", "incr"}} {
+				cfgs = append(cfgs, c07Cfg{Updates: []string{pr[0]}, Updates2: []string{pr[1]}, Execs: []string{m, m}})
+				bounds = append(bounds, b)
+			}
+		}
 		// two updates in sequence against one executor
 		for _, ks := range [][]string{{"full", "incr"}, {"incr", "remove"}, {"remove", "full"}, {"remove", "incr"}, {"badfull", "incr"}, {"badfull", "remove"}} {
 			if !thorough && m != "sort" && m != "nsortmc" && m != "dag" {
@@ -378,10 +448,10 @@ func init() {
 	hx.Register(&hx.Prop{
 		ID:          "C07",
 		Workers:     func(string) int { return 16 },
-		BudgetQuick: 170 * time.Second,
+		BudgetQuick: 300 * time.Second,
 		BudgetThor:  30 * time.Minute,
 		Kind:        "schedules",
-		Rule: "pool (1,2), version-tagged rule sets whose versions differ in tags and membership; updater thread performing 1-2 updates from {full, incremental, removal, a full update that does not compile (must fail and change nothing) followed by an incremental update / removal} against 1-2 executions in each of 10 pool execution paths {sort, concurrent, mix, inverse-mix, N-sort-M-conc, N-conc-M-sort, N-conc-M-conc, DAG (2 layers), selected, configured-model}, every schedule with <=2 (thorough 3) deviations from the default scheduler (delay bounding: a preemption, or running another thread than the lowest-numbered enabled one when the running thread blocks or ends); an update triggered from inside a running rule; executions started after the update returned (both instances); one client issuing two executions in a row while an update is under way (instance reuse). " +
+		Rule: "pool (1,2), version-tagged rule sets whose versions differ in tags and membership; updater thread performing 1-2 updates from {full, incremental, removal, a full update that does not compile (must fail and change nothing) followed by an incremental update / removal} against 1-2 executions in each of 10 pool execution paths {sort, concurrent, mix, inverse-mix, N-sort-M-conc, N-conc-M-sort, N-conc-M-conc, DAG (2 layers), selected, configured-model}, every schedule with <=2 (thorough: 3 for the sort model, and all configurations for all ten paths) deviations from the default scheduler (delay bounding: a preemption, or running another thread than the lowest-numbered enabled one when the running thread blocks or ends); an update triggered from inside a running rule; executions started after the update returned (both instances); one client issuing two executions in a row while an update is under way (instance reuse); two update calls racing with each other, executions afterwards (they must run what some serial order of the calls installs). " +
 			"Oracle (regular-register history check on the global call/return log): each execution's result map equals the reference result of exactly ONE snapshot, that snapshot is not older than the last update that returned before the execution was called and not newer than the last update called before it returned; no panic, no deadlock",
 		Assume: []string{"sequentially consistent memory", "nothing is demanded about the relative order of two overlapping executions"},
 		Run: func(c *hx.Ctx) {
